@@ -309,7 +309,8 @@ def clientEvent (c : Core) (ev : AEv) : W :=
   | .waitHdr, .reqHeaders e kind ws v => onReqHeaders c e kind ws v
   | .consume, .reqData .ok => mk c []
   | .consume, .reqData .tooLarge => cbsErrFire c true
-  | .consume, .reqData .stream => startRequestStream { c with reqStream := true } true
+  | .consume, .reqData .stream =>   -- check_body_size step 3: `if request and not self.flow.response`
+    if c.hasResp then mk c [] else startRequestStream { c with reqStream := true } true
   | .consume, .reqEOM ne => fire { c with cs := .done, reqBody := ne } .request .requestHook
   | .stream, .reqData _ => mk c [.send false .rd]
   | .stream, .reqEOM _ => fire c .request .requestHookStream
@@ -387,7 +388,7 @@ def resume (c : Core) (k : K) (ok : Bool) (peek : Bool) : W :=
   match k with
   | .reqHeadersHook e =>
     if killedNow c peek then killedFire c peek
-    else if c.reqStream && !e then startRequestStream c false
+    else if c.reqStream && !e && !c.hasResp then startRequestStream c false   -- a response set by an addon: consume, do not stream
     else mk { c with cs := .consume, ss := .waitHdr } []
   | .streamConn late =>
     if ok then
@@ -512,7 +513,7 @@ def bufAfter (s : St) (ev : Ev) : Nat × Nat :=
   match ev with
   | .reqData n =>
     if live && s.core.cs == .consume then
-      if verdict s.limit s.thresh (s.reqBuf + n) == .stream then (0, s.respBuf) else (s.reqBuf + n, s.respBuf)
+      if verdict s.limit s.thresh (s.reqBuf + n) == .stream && !s.core.hasResp then (0, s.respBuf) else (s.reqBuf + n, s.respBuf)
     else (s.reqBuf, s.respBuf)
   | .reqEOM => if live && s.core.cs == .consume then (0, s.respBuf) else (s.reqBuf, s.respBuf)
   | .respData n =>
